@@ -2,12 +2,22 @@
 # Build gv-model from the extracted Coq model + hand-written driver. Offline.
 set -e
 cd "$(dirname "$0")"
+sh ../mkproject.sh
 python3 ../translate/errnames.py ../coq/Base/Res.v errnames.ml
 mkdir -p extracted _build
 ( cd extracted && rm -f *.ml *.mli && coqc -Q ../../coq GV ../../coq/Extract/Extract.v >/dev/null )
-rm -f extracted/*.mli   # interfaces are not needed; avoids ordering issues
+rm -f extracted/*.mli   # interfaces are not needed
 rm -rf _build/* && cp extracted/*.ml *.ml _build/
 cd _build
+# main.ml is generated: force-link every stream module (s_*.ml) in a fixed order, then dispatch
+{
+  for f in $(ls s_*.ml | LC_ALL=C sort); do
+    m=$(basename $f .ml); M=$(echo $m | cut -c1 | tr a-z A-Z)$(echo $m | cut -c2-)
+    echo "let () = $M.init ()"
+  done
+  echo "let () = Driver.main ()"
+} > main.ml
 FILES=$(ocamlfind ocamldep -sort *.ml)
-ocamlfind ocamlopt -package zarith -linkpkg -w -a -O2 -unboxed-types 2>/dev/null $FILES -o ../gv-model || \
-ocamlfind ocamlopt -package zarith -linkpkg -w -a $FILES -o ../gv-model
+ocamlfind ocamlopt -package zarith -linkpkg -w -a -O3 $FILES -o ../gv-model.new 2>/dev/null || \
+ocamlfind ocamlopt -package zarith -linkpkg -w -a $FILES -o ../gv-model.new
+mv ../gv-model.new ../gv-model
